@@ -98,6 +98,13 @@ STATEMENTS = [
     'repeat in group "NoGroup" as y begin set y end',
     'repeat in group "NoGroup" and "A" as y begin on y end',
     'repeat in location "NoLoc" and location "P2" as y begin on y end',
+    # a number where a name belongs (a variable, a macro, a loop counter)
+    'assign zn 3 set zn', 'assign zn 3 on zn and "A"', 'define zm 4 off zm',
+    'assign zn 2.5 set group zn', 'assign zn 3 off location zn',
+    'assign zn 3 set zn zone 1', 'assign zn 3 set zn row 0',
+    'assign zn 7 get zn ' + COLOUR.format(81),
+    'repeat with zi from 1 to 2 begin set zi end',
+    'assign zn 3 repeat in zn and "B" as y begin on y end',
 ]
 
 
@@ -136,6 +143,17 @@ STRIPPED = {
         ('repeat in "A" as y begin on y end', ()),
     'repeat in location "NoLoc" and location "P2" as y begin on y end':
         ('repeat in location "P2" as y begin on y end', ()),
+    'assign zn 3 set zn': ('', ()),
+    'assign zn 3 on zn and "A"': ('on "A"', ()),
+    'define zm 4 off zm': ('define zm 4', ()),
+    'assign zn 2.5 set group zn': ('', ()),
+    'assign zn 3 off location zn': ('', ()),
+    'assign zn 3 set zn zone 1': ('', ()),
+    'assign zn 3 set zn row 0': ('', ()),
+    'assign zn 7 get zn ' + COLOUR.format(81): (COLOUR.format(81), ()),
+    'repeat with zi from 1 to 2 begin set zi end': ('', ()),
+    'assign zn 3 repeat in zn and "B" as y begin on y end':
+        ('repeat in "B" as y begin on y end', ()),
 }
 assert all(k in STATEMENTS for k in STRIPPED)
 
